@@ -453,30 +453,33 @@ def expr_cases(ctx, body, node):
         e = s.rvalue(node)
     out = []
     for extra, v in alg.expand(S.strip_transparent(e)):
-        conds = []
-        bad = False
+        # value taken from a local assigned on several branches: one row per disjunct of the branch's
+        # own path condition
+        bases = [[]]
         for ee, val in extra:
-            if ee[0] == "effect":
-                continue
             if ee[0] == "pc-of":
-                # value taken from a local assigned on several branches: the branch's own condition
-                ds = pc.conditions(ee[1])
-                if len(ds) == 1:
-                    for a in next(iter(ds)):
-                        if a not in conds:
-                            conds.append(a)
-                continue
-            a = S.normalise_atom(alg.rewrite(ee), val)
-            f = S.fold_atom(a[0], a[1])
-            if f is False:
-                bad = True
-                break
-            if f is None:
-                conds.append(a)
-        if not bad:
-            row = (sorted(S.atom_str(e2, v2, s) for e2, v2 in conds), S.show(S.strip_transparent(alg.rewrite(v)), s))
-            if row not in out:
-                out.append(row)
+                ds = list(pc.conditions(ee[1])) or [frozenset()]
+                bases = [b0 + list(d) for b0 in bases for d in ds][:32]
+        for base in bases:
+            conds = list(base)
+            bad = False
+            for ee, val in extra:
+                if ee[0] in ("effect", "pc-of"):
+                    continue
+                a = S.normalise_atom(alg.rewrite(ee), val)
+                f = S.fold_atom(a[0], a[1])
+                if f is False:
+                    bad = True
+                    break
+                if f is None:
+                    if any(e2 == a[0] and S._contradict(v2, a[1]) for (e2, v2) in conds):
+                        bad = True
+                        break
+                    conds.append(a)
+            if not bad:
+                row = (sorted(set(S.atom_str(e2, v2, s) for e2, v2 in conds)), S.show(S.strip_transparent(alg.rewrite(v)), s))
+                if row not in out:
+                    out.append(row)
     return out
 
 
